@@ -336,9 +336,77 @@ def check_exhaustive(case):
                        "exhaustive-schedules": count}}
 
 
+@st.composite
+def shared_lock_configs(draw):
+    n = draw(st.integers(1, 3))
+    length = draw(st.integers(1, 6))
+    return {"n": n, "length": length, "susp": draw(st.integers(1, 2)),
+            # children other than the last one stop early (closed after j items), so the tee is down to ONE live child
+            "closes": [draw(st.integers(0, 2)) for _ in range(n - 1)] + [None],
+            "readers": draw(st.integers(1, 2)), "reads": draw(st.integers(1, 4)),
+            "lock_susp": draw(st.booleans()), "choices": draw(st.lists(st.integers(0, 4), max_size=80))}
+
+
+def check_shared_lock(case):
+    """the lock given to a tee is not private to that tee: other readers of the same source (a second tee, a task that
+    takes the lock itself) rely on it as well - also when the tee is down to a single child.  With every party
+    holding the lock while it advances the source, the source is never advanced by two of them at once, and every
+    item goes to exactly one place."""
+    ctx = Ctx("a")
+    src = LazySource(ctx, case["length"], case["susp"])
+    lock = Lock(ctx, "lock", suspend_uncontended=case["lock_susp"])
+    children = list(a.tee(src, case["n"], lock=lock))
+    taken = []
+
+    async def consumer(i):
+        child, limit = children[i], case["closes"][i]
+        k = 0
+        while limit is None or k < limit:
+            try:
+                item = await child.__anext__()
+            except StopAsyncIteration:
+                return
+            if i == case["n"] - 1:
+                taken.append(item.idx)
+            del item
+            k += 1
+        await child.aclose()
+
+    async def reader(r):
+        for _ in range(case["reads"]):
+            async with lock:
+                try:
+                    item = await src.__anext__()
+                except StopAsyncIteration:
+                    return
+                taken.append(item.idx)
+                del item
+
+    problems = []
+
+    def invariant(sched, task):
+        if src.max_active > 1 and not problems:
+            problems.append(("source-advanced-by-two-lock-holders-at-once", f"max_active={src.max_active}"))
+
+    tasks = [(f"c{i}", consumer(i)) for i in range(case["n"])] + [(f"r{r}", reader(r)) for r in range(case["readers"])]
+    sched = Scheduler(ctx, tasks, case["choices"], on_step=invariant, max_steps=5000, default="rr")
+    with loop_mode(ctx, "hooks"):
+        sched.run()
+        close_orphans(ctx)
+    if sched.verdict is not None:
+        raise Violation(f"C09/shared-lock/{sched.verdict}", f"trace={sched.trace[-10:]}")
+    if problems:
+        raise Violation(f"C09/{problems[0][0]}", f"{problems[0][1]} config={ {k: v for k, v in case.items() if k != 'choices'} }")
+    if len(taken) != len(set(taken)):
+        raise Violation("C09/shared-lock/item-delivered-twice", f"{sorted(taken)}")
+    return {"evaluations": 1, "nontrivial": ["x"] if len(taken) >= 2 else [], "labels": {}}
+
+
 def shards(tier):
     out = [Shard(f"schedules-{i}", check, strategy=configs(tier), n=1500, nontrivial=lambda c: False,
                  thorough_mult=12) for i in range(8)]
+    out.append(Shard("shared-lock", check_shared_lock, strategy=shared_lock_configs(), n=800, nontrivial=lambda c: False,
+                     thorough_mult=12))
     if tier == "thorough":
         cfgs = small_configs()
         k = 16
